@@ -55,10 +55,10 @@ def rss_watchdog(pgid, cap_gb, stop, killed):
                     rp = st.rfind(")")
                     comm = st[st.find("(") + 1:rp]
                     f = st[rp + 2:].split()
-                    if comm != "cbmc" or int(f[2]) != pgid:
+                    if comm not in ("cbmc", "kani-driver") or int(f[2]) != pgid:
                         continue
                     rss = int(f[21]) * page
-                    if rss > cap_gb * (1 << 30):
+                    if rss > (cap_gb if comm == "cbmc" else 28) * (1 << 30):
                         os.kill(int(d), 9)
                         killed.append((int(d), rss))
                 except (OSError, ValueError, IndexError):
@@ -217,9 +217,23 @@ def concrete_playback(src, target, harness, timeout_s, mem_gb, logf, want=None):
     cmd = ["cargo", "kani", "--target-dir", target, "-Z", "stubbing", "-Z", "unstable-options",
            "-Z", "concrete-playback", "--concrete-playback=print", "--harness-timeout", f"{timeout_s}s",
            "--harness", harness, "--exact"] + CBMC_ARGS
+    import threading
     with open(logf, "w") as lf:
-        subprocess.run(cmd, cwd=src, env=env_offline(), stdout=lf, stderr=subprocess.STDOUT,
-                       preexec_fn=limit_mem(mem_gb), timeout=timeout_s + 600)
+        p = subprocess.Popen(cmd, cwd=src, env=env_offline(), stdout=lf, stderr=subprocess.STDOUT, preexec_fn=limit_mem(mem_gb))
+        stop, killed = threading.Event(), []
+        # the JSON trace of a multi-million-variable formula can make the Kani driver grow past 30 GB
+        wd = threading.Thread(target=rss_watchdog, args=(p.pid, mem_gb, stop, killed), daemon=True)
+        wd.start()
+        try:
+            p.wait(timeout=timeout_s + 600)
+        except subprocess.TimeoutExpired:
+            pass
+        finally:
+            stop.set()
+            try:
+                os.killpg(p.pid, 9)
+            except Exception:
+                pass
     txt = open(logf).read()
     # one generated test per failed check and per cover: keep the tests of FAILED checks only
     tests = [t for t in re.findall(r"```\n(.*?)```", txt, re.S) if "fn kani_concrete_playback_" in t]
